@@ -45,6 +45,8 @@ func init() {
 		RunDoubleChecked(p, r, func(pkg string) bool { return strings.HasPrefix(pkg, modPath+"/constraint") })
 		RunSibling(p, r, "C06")
 		RunOutDef(p, r)
+		RunResetDef(p, r)
+		r.RequireMin("RESET-DEF", 2)
 		r.RequireMin("OUT-DEF", 20)
 		if ee, err := newEffEngine(p, BuildCallGraph(p)); err != nil {
 			r.Fail("UNRESOLVED", "-", "-", "rules", "-", err.Error())
